@@ -30,6 +30,14 @@ def rule_modes(ctx):
     protocol.reader_rows_table(ctx, "O6.1", {"modes", "faults"}, "rows()")
 
 
+def rule_modes_on_a_shared_cid(ctx):
+    """O6.7 (round 11): "for the same CID and data" - readers of different modes created on one CID object (also up
+    front, before any of them reads) each start from reset checks; otherwise the second mode sees the first one's
+    uniqueness bookkeeping and the modes disagree (C08's history table)."""
+    ctx.res.minimum("O6.7", 1)
+    protocol.history_table(ctx, "O6.7", 2, overlapping=False)
+
+
 def rule_copies(ctx):
     rule_location_copies(ctx)
     ctx.res.rule_instances["O6.4"] = ctx.res.rule_instances.get("O4.3", 0)
@@ -142,4 +150,4 @@ def rule_ods_container_faults(ctx):
     rule_container_faults(ctx, "O6.5")
 
 
-RULES = [rule_rejected_rows_are_data_errors, rule_modes, rule_copies, rule_raw_reader_escapes, rule_csv_fault_conversion, rule_strict_csv_reader, rule_fixed_reader_reports_malformed_streams, rule_ods_container_faults, rule_module_state]
+RULES = [rule_rejected_rows_are_data_errors, rule_modes, rule_modes_on_a_shared_cid, rule_copies, rule_raw_reader_escapes, rule_csv_fault_conversion, rule_strict_csv_reader, rule_fixed_reader_reports_malformed_streams, rule_ods_container_faults, rule_module_state]
